@@ -587,6 +587,31 @@ func (fc *FnCtx) specCall(env *SpecEnv, e *SCall) Val {
 		sfail("unknown spec function %q", id.Name)
 	}
 	if sl, ok := e.Fun.(*SSel); ok {
+		if id, ok := sl.X.(*SIdent); ok {
+			if _, bound := env.scope[id.Name]; !bound {
+				if o := fc.eng.lookupQualified(env.pkg, id.Name, sl.Name); o != nil {
+					if f, ok := o.(*types.Func); ok {
+						if ct := fc.eng.contractFor(f, env.pkg); ct != nil && ct.Pure {
+							sig := f.Type().(*types.Signature)
+							var sorts, ats []string
+							for i := range e.Args {
+								a := fc.specEval(env, e.Args[i])
+								if i < sig.Params().Len() {
+									a.Ty = sig.Params().At(i).Type()
+								}
+								sorts = append(sorts, fc.smt.sortOf(a.Ty))
+								ats = append(ats, a.T)
+							}
+							rt := sig.Results().At(0).Type()
+							name := fmt.Sprintf("pure_%s_%d", sanitize(ct.Key), 0)
+							fc.smt.declare(name, fmt.Sprintf("(declare-fun %s (%s) %s)", name, strings.Join(sorts, " "), fc.smt.sortOf(rt)))
+							return Val{"(" + name + " " + strings.Join(ats, " ") + ")", rt}
+						}
+						sfail("spec call of %s.%s: not an `extern pure` function", id.Name, sl.Name)
+					}
+				}
+			}
+		}
 		recv := fc.specEval(env, sl.X)
 		key := "(" + typeTextRel(recv.Ty, env.pkg) + ")." + sl.Name
 		sf := fc.eng.findSpecFn(env.pkg, key)
@@ -696,6 +721,14 @@ func (fc *FnCtx) callSpecFn(env *SpecEnv, sf *SpecFn, recv *Val, args []Val) Val
 	}
 	if len(args) != len(sf.Params) {
 		sfail("spec function %s expects %d arguments, got %d", sf.Name, len(sf.Params), len(args))
+	}
+	if sf.Name == "strlower" && len(args) == 1 {
+		// lower-casing a literal that is already lower case is the identity (decided on the literal itself)
+		for lit, name := range smt.strLits {
+			if name == args[0].T && strings.ToLower(lit) == lit {
+				return args[0]
+			}
+		}
 	}
 	if sf.Body == nil || sf.Rec {
 		// uninterpreted or recursive: SMT-level function over its arguments
